@@ -135,4 +135,13 @@ REGISTRY = {
         "re-scored by a fresh compiler, HofFromKnown, ResultIsBest, LogsMonotone, ReproducibleInProcess and "
         "ReproducibleAcrossProcesses (fresh interpreters with other hash seeds).",
         "", "DESIGN.md 6/C19"),
+    "C17": (
+        "exact values of fidelity / trace distance / reduced states computed by the spec on stabilizer mixtures "
+        "(rational weights) and compared with the real numeric code; relational laws checked by TLC on fixed-point numbers",
+        "Mixtures of TLC-enumerated stabilizer states on n <= 3 qubits (pure, commuting, non-commuting, complex): "
+        "PureOverlap, PureMixedOverlap, UhlmannCommuting, TraceDistCommuting, PartialTraceOK for every kept subset, "
+        "InfidelityCrossRep on all 60^2 two-qubit pairs (sampled quick) x 4 representation combinations; symmetry, range, "
+        "F = 1 iff equal, triangle inequality, Fuchs - van de Graaf on generic random density matrices.",
+        "Exact only on stabilizer mixtures; generic matrices: relational laws at 1e-4; trusted: numpy inside graphiq, "
+        "projections, TLC", "DESIGN.md 6/C17"),
 }
